@@ -2,7 +2,7 @@
    ExtrOcamlBasic only: bool, option, list, prod, unit, sumbool map to OCaml's; Z, N, positive,
    nat stay the extracted inductives.  No Extract Constant of ours. *)
 From Coq Require Import Extraction ExtrOcamlBasic.
-From KV Require Import DetectProofs Base FP Params ParamsProofs Weave WeaveProofs WeaveCheck Sort Detect Api Cmp Bpm Formats Cli.
+From KV Require Import DetectProofs Base FP Params ParamsProofs Weave WeaveProofs WeaveCheck Sort Detect Api Cmp Bpm Formats Cli Kernels Pipeline.
 Extraction Language OCaml.
 Set Extraction Optimize.
 Extraction "../ocaml/kvmodel.ml"
@@ -17,4 +17,5 @@ Extraction "../ocaml/kvmodel.ml"
   bpm_block bpm64 bpm256 sed firstn
   read_inputs rows_of write_fasta write_clu write_msf parse_format read_lines detect_format
   cli_main predicted_run_stage exit_code
+  progressive guide_tasks sort_tasks np_of_params alg_f32 distance_matrix bits_of_f32
   kpath_wfb ops_fitb integrity_b subalignment_b strip_allgap degap w_gaps w_sip.
